@@ -36,6 +36,11 @@ Proof.
   - intros t sv H. discriminate.
   - intros (_ & Hhp & _) r. left. destruct r; cbn; lia.
   - intros _ p. reflexivity.
+  - intros i u e H. destruct i; discriminate.
+  - intros t. reflexivity.
+  - intros t e0 H. discriminate.
+  - intros t r j x ok H. discriminate.
+  - intros k. reflexivity.
 Qed.
 
 Lemma init_ok c ths : Conc.cfg_ok view (Inv c) (init_cfg c ths).
